@@ -8,7 +8,8 @@ CLAIMS = {
   "text": "Decides the structural clauses of C06 for all paths/inputs: only the counted helper touches the sink and only via write_all; "
           "every sink write is dominated by `finalized=true` behind the finalized test (nothing before finish, nothing after, once); frame-writing "
           "entries succeed only on the flag-false edge; the byte counter is updated only beside the write with len(buf); MuxerStats fields are "
-          "sourced from the right queues/counter and only on the Ok edge. Static rules give the for-all-histories part tests cannot; numeric tolerance of duration is not decided. R6: the end time of a queue whose presentation times are not monotone in queue order ranges over every sample; each queue is paired with the last-delta field its own writer maintains.",
+          "sourced from the right queues/counter and only on the Ok edge. Static rules give the for-all-histories part tests cannot; numeric tolerance of duration is not decided. R6: the end time of a queue whose presentation times are not monotone in queue order ranges over every sample; each queue is paired with the last-delta field its own writer maintains."
+          " R5 also: the sample queues the statistics are read from are append-only in the whole library (store inventory).",
   "note": "Trusted: rustc MIR, std Write::write_all contract, externals classification. Not decided: +-1 tick tolerance of duration_secs; "
           "R6 (end time = last sample's pts+delta is the maximum only when pts is monotone) is recorded as a known finding when it applies."},
  "C13": {
@@ -16,7 +17,8 @@ CLAIMS = {
   "text": "Decides for every failure point and every short-write/interrupt schedule at once: the sink is reached only through write_all in one helper whose byte counter does not depend on the sink; "
           "every Result of a sink write (and of each writer-tree call) is consumed by `?` or returned, and the Break edge never re-enters the writer tree, so the buffers offered to the sink form one fixed "
           "sequence that stops at the first failure (prefix property, error iff a write failed); the finalized flag is set before the first write and never cleared (nothing is written afterwards). "
-          "Tests can only sample failure points; the rule covers all of them structurally.",
+          "Tests can only sample failure points; the rule covers all of them structurally."
+          " The sink call itself runs once per helper invocation (not on a CFG cycle) and its Result is returned / `?`-propagated unseen (no retry).",
   "note": "Relies on std's documented write_all contract for Interrupted/short writes. Panic-freedom of the finalize path is the C12 obligation set restricted to the writer tree (known findings shared by key)."},
  "C17": {
   "technique": "whole-program effect analysis over the resolved call graph + trait-solver auto-trait query + MIR alpha-equivalence / delegation check",
@@ -33,7 +35,8 @@ CLAIMS = {
  "C10": {
   "technique": "store inventory + dominance + guard extraction on MIR (fragmented muxer), layout interpretation for the segment builder",
   "text": "Decides the conservation argument structurally for every write/flush/query interleaving: the only mutations of the sample queue are push (write) and mem::take (flush) and the builder gets exactly the taken vector; the None exit of flush is store-free; "
-          "the sequence counter starts at 1, is incremented once after the builder call which receives the pre-increment value; the only rejection is guarded by dts < last_dts and is store-free; readiness queries are &self and pure. R8: no field of a queued or taken fragment sample is stored to after the push.",
+          "the sequence counter starts at 1, is incremented once after the builder call which receives the pre-increment value; the only rejection is guarded by dts < last_dts and is store-free; readiness queries are &self and pure. R8: no field of a queued or taken fragment sample is stored to after the push."
+          " R9: every field of the record queued by write_video is the call's own parameter (payload: exact copy of the slice).",
   "note": "Relies on std contracts of mem::take and Vec::push. R4/R5 (data_offset and same-samples-same-order in trun/mdat) are layout rules."},
  "C19": {
   "technique": "layout interpretation of typed HIR (symbolic byte productions of all box builders) compared with specification transcriptions",
@@ -45,7 +48,8 @@ CLAIMS = {
   "technique": "layout interpretation of typed HIR: symbolic file productions of both finalize functions (offset lists, schedule permutation, tables, moov) + MIR monotone-field analysis",
   "text": "Decides the chain queued sample i -> table entry i -> file offset of its bytes for all histories and configurations: one pure schedule drives offset assignment and streaming; per track the pushed offset list, the streamed queue, "
           "the cursor step and the stsz/stss/stts tables belong together; initial cursor == symbolic width of everything emitted before the sample region (both layouts, incl. placeholder==final moov width); per-track schedule order == queue order "
-          "(leading sort-key field must be the writer-enforced monotone one); payload converter per codec and key flag unmodified; mdat size == 8 + streamed payloads. Found and repaired the B-frame+audio chunk-offset permutation defect.",
+          "(leading sort-key field must be the writer-enforced monotone one); payload converter per codec and key flag unmodified; mdat size == 8 + streamed payloads. Found and repaired the B-frame+audio chunk-offset permutation defect."
+          " R4 also: entries of one track with equal leading sort keys keep queue order (stable sort or index in the key).",
   "note": "Not decided: byte equality of converter outputs for concrete inputs (framing is C14). Trusted: std sort_by_key/enumerate/map/collect contracts, interpreter."},
  "C02": {
   "technique": "layout interpretation: derived box tree of every emitted stream vs containment/cardinality schema; symbolic width identities",
@@ -69,12 +73,14 @@ CLAIMS = {
  "C04": {
   "technique": "guard extraction (dominating switch edges + operand-role slices) on MIR; total-match error map via HIR interpretation; typestate dominance",
   "text": "For every builder / write / finish entry point and the inner writers: each documented precondition has an error exit of the documented variant whose nearest dominating guard is the documented predicate on the documented operands (relation canonicalised incl. strictness, invariant under a<=b <-> !(a>b)); no undocumented rejection exists; "
-          "success exits lie on the not-finished edge; the internal->public error conversion equals the documented table; sibling video entry points maintain each other's monotonicity state (defect found and repaired); ADTS/Opus validators are guarded on the frame bytes / codec arm.",
+          "success exits lie on the not-finished edge; the internal->public error conversion equals the documented table; sibling video entry points maintain each other's monotonicity state (defect found and repaired); ADTS/Opus validators are guarded on the frame bytes / codec arm."
+          " R7: encode_video's own keyframe decision is tabulated over all 256 NAL header bytes (1- and 2-NAL frames) by finite-domain interpretation of the dumped MIR and must equal the codec module's public classifier (H.264, H.265).",
   "note": "Table transcribed from docs/contract.md and the property statement (lib/mx/rules/c04.py TABLE). NaN/sub-tick behaviour of f64 comparisons is value-level and not decided. Consuming finish() is a type-level fact (thorough-tier witness)."},
  "C07": {
   "technique": "layout interpretation (stsd selection, records) + HIR evaluation of writer/builder functions + MIR guard extraction for parameter-set slots",
   "text": "Sample-entry type is selected by the config variant, the variant is built from the configured codec by the matching extractor, fall-backs and the fragmented selection chain are checked per codec; every parameter-set slot receives the iterated NAL unit itself, only while empty and only for the spec's NAL type constant (7/8, 32/33/34); "
-          "audio entry fields and the AudioSpecificConfig/dOps derive from the one audio configuration; av1C/vpcC field bytes are values of the parsed configuration. Two genuine defects recorded (zero-frame non-H.264 fall-back to avc1; constant fragmented av1C fields). R7-R9: hvcC profile/tier/level bytes are the identity function of the SPS bytes they summarise (all 256 values of the extracted builder+accessor expression); AAC samplingFrequencyIndex match table == ISO/IEC 14496-3 table 1.18; av1C flag bits per configuration field; the AV1 sequence-header parser's read program (transcribed from typed HIR) reads the same bit widths in the same order and yields the same configuration values as a transcription of AV1 spec 5.5.1-5.5.5 on every enumerated syntax path (about 2700 paths).",
+          "audio entry fields and the AudioSpecificConfig/dOps derive from the one audio configuration; av1C/vpcC field bytes are values of the parsed configuration. Two genuine defects recorded (zero-frame non-H.264 fall-back to avc1; constant fragmented av1C fields). R7-R9: hvcC profile/tier/level bytes are the identity function of the SPS bytes they summarise (all 256 values of the extracted builder+accessor expression); AAC samplingFrequencyIndex match table == ISO/IEC 14496-3 table 1.18; av1C flag bits per configuration field; the AV1 sequence-header parser's read program (transcribed from typed HIR) reads the same bit widths in the same order and yields the same configuration values as a transcription of AV1 spec 5.5.1-5.5.5 on every enumerated syntax path (about 2700 paths)."
+          " R10: offset-passing header parsers (VP9) read consecutive fields - every read starts at the offset returned by the read before it on every path (provenance abstract interpretation).",
   "note": "Not decided: bit-level correctness of the AV1 sequence-header and VP9 header parsers (value-level). Shares the record-layout instances with C19."},
  "C09": {
   "technique": "layout interpretation: enumeration of the audio trak production for a track-start offset mechanism",
@@ -94,17 +100,20 @@ CLAIMS = {
   "text": "Decides the necessary structural condition of C16 for every input at once: each of the ~160 value-losing conversions reachable from the public surface either provably keeps its operand inside the target type "
           "(constants, bit masks, field intervals of crate-built structs, callee postconditions, constant widths of byte producers, exact lengths of straight-line-built descriptors, guards whose other arm returns an error; record counts under A1; "
           "queued sample sizes by the guard at every push) or is reported. On the current tree 106 are discharged and 53 are genuine unguarded truncations listed as known findings with boundary-crossing inputs (durations, composition offsets, "
-          "parameter-set lengths, dimensions, sample rate, channel count, box/fragment sizes, f64 tick saturation). A new unguarded narrowing, a weakened or removed range guard, or a narrowed intermediate is a violation.",
+          "parameter-set lengths, dimensions, sample rate, channel count, box/fragment sizes, f64 tick saturation). A new unguarded narrowing, a weakened or removed range guard, or a narrowed intermediate is a violation."
+          " R4: the run-length duration/offset tables carry every per-sample value exactly (no clamping, merging only on equality).",
   "note": "Decides that no conversion loses bits silently; does not decide that the wide value is the mathematically right one (C01-C03, C08 own the formulas). A cast protected only by the always-on invariant macro (panic) stays listed. "
           "Clamping conversions (try_from(..).unwrap_or / min) are not inventoried. Assumptions: 64-bit usize; A1 fewer than 2^32-1 records per table."},
  "C11": {
   "technique": "layout interpretation of the media-segment and init-segment builders + MIR slices in flush_segment",
   "text": "trun per-sample fields have the required operator shape (duration = next.dts - this.dts, cts = pts - dts signed, flags constants with the non-sync bit exactly on the non-sync arm, size = len(data)); tfdt/trun are version 1; the base decode time handed to the builder depends on the segment's own samples (defect found and repaired: it was estimated from the previous segment); "
-          "the init segment is built from the construct-time config only, the config has no writer after construction, and the cache is consulted first. R5: queued samples are immutable between write and segment building (flags/times written are the submitted ones).",
+          "the init segment is built from the construct-time config only, the config has no writer after construction, and the cache is consulted first. R5: queued samples are immutable between write and segment building (flags/times written are the submitted ones)."
+          " R5 also: the queued record's fields are the call's own parameters unmodified (sync flag, pts, dts).",
   "note": "Not decided: numeric monotonicity of base times and the 3000-tick default of a lone sample."},
  "C14": {
   "technique": "layout interpretation of the converters + exhaustive evaluation of the *extracted* ADTS bit-field formulas + MIR guard extraction",
-  "text": "Both Annex-B converters have exactly the production rep(iter(data)){skip empty | be32(len(nal)) ++ nal} ++ whole-input fall-back, are identical to each other, and the iterator yields sub-slices of its input; the ADTS validator returns frame[h..L] where the extracted expressions for h and L are decided equal to the spec formulas over all values of the bytes they read, under the guards h <= L <= len(frame). R4: the start-code scanner steps by 1 from `from`, reports (i,3)/(i,4) only under the exact byte patterns, and returns None only when i + 3 > len is entailed (or the input trivially has no room).",
+  "text": "Both Annex-B converters have exactly the production rep(iter(data)){skip empty | be32(len(nal)) ++ nal} ++ whole-input fall-back, are identical to each other, and the iterator yields sub-slices of its input; the ADTS validator returns frame[h..L] where the extracted expressions for h and L are decided equal to the spec formulas over all values of the bytes they read, under the guards h <= L <= len(frame). R4: the start-code scanner steps by 1 from `from`, reports (i,3)/(i,4) only under the exact byte patterns, and returns None only when i + 3 > len is entailed (or the input trivially has no room)."
+          " R2 also: unit boundaries of the NAL iterator (scan from cursor; unit start = hit position + length; end scan from exactly the unit start; cursor := unit end). R5: what the writers queue is exactly the converter's / ADTS validator's output.",
   "note": "Not decided: that the start-code scanner finds exactly the spec's 3/4-byte start codes in every byte string (a for-all over strings with overlapping patterns; value-level)."},
  "C18": {
   "technique": "layout interpretation: user-data production vs iTunes metadata layout; non-interference of the metadata parameter over the whole moov production",
@@ -113,6 +122,7 @@ CLAIMS = {
  "C20": {
   "technique": "MIR rules on the bin crate: single-consumer flow of the output File, argument slices, dominance by the Ok edge of finish, store inventory of the verdict flag, loop-variant guard extraction",
   "text": "The File created for the output path is consumed only by MuxerBuilder::new and nothing else in the mux command writes files; every builder/muxer argument is sourced from the matching CLI option (documented default codecs), one frame at t=0 with key=true; both completion messages are dominated by the Ok edge of finish() and all library Results are propagated, main returns the Result; "
-          "the validate verdict is initialised true, only stored false, and stored false on every error branch, the hex validator rejects under {empty, odd, non-hex}; the info box walk advances by a size guarded non-zero and is bounded by the buffer length. main hands every parsed option to the command parameter of the same name; no builder call replaces a configuration field wholesale after another call configured it; on the mux path no Result is discarded through .ok()/unwrap_or*/err().",
+          "the validate verdict is initialised true, only stored false, and stored false on every error branch, the hex validator rejects under {empty, odd, non-hex}; the info box walk advances by a size guarded non-zero and is bounded by the buffer length. main hands every parsed option to the command parameter of the same name; no builder call replaces a configuration field wholesale after another call configured it; on the mux path no Result is discarded through .ok()/unwrap_or*/err()."
+          " R5: the non-zero guard tests the very value added to the cursor. R7: reported frame counts are incremented unconditionally, exactly once after each successful library frame write.",
   "note": "Not decided: byte equality of the CLI output with an in-process library run; clap's own parsing."},
 }
